@@ -179,10 +179,209 @@ def clone(n):
         for a in ("lineno", "col_offset", "end_lineno", "end_col_offset"):
             if hasattr(n, a):
                 setattr(new, a, getattr(n, a))
+        new._src = getattr(n, "_src", n)  # the node of the indexed tree this copy stands for
+        if hasattr(n, "_origin"):
+            new._origin = n._origin
         return new
     if isinstance(n, list):
         return [clone(x) for x in n]
     return n
+
+
+def _empty_container(val: ast.expr) -> Optional[str]:
+    if isinstance(val, ast.List) and not val.elts:
+        return "list"
+    if isinstance(val, ast.Dict) and not val.keys:
+        return "dict"
+    if isinstance(val, ast.Call) and not val.args and not val.keywords and isinstance(val.func, ast.Name) and val.func.id in ("list", "dict"):
+        return val.func.id
+    return None
+
+
+def _mutation_sites(func_node: ast.AST, name: str) -> list[ast.AST]:
+    """Every construct that changes the container bound to local ``name`` in place."""
+    out: list[ast.AST] = []
+    for st, t in stores(func_node, lambda t: isinstance(t, (ast.Subscript, ast.Attribute)) and isinstance(t.value, ast.Name) and t.value.id == name):
+        out.append(st)
+    for st, t in stores(func_node, lambda t: isinstance(t, ast.Name) and t.id == name):
+        if isinstance(st, ast.AugAssign):
+            out.append(st)
+    for n in walk_local(func_node):
+        if isinstance(n, ast.Call) and isinstance(n.func, ast.Attribute) and isinstance(n.func.value, ast.Name) and n.func.value.id == name and n.func.attr in ("append", "extend", "update", "add", "insert", "setdefault", "pop", "clear", "remove", "sort", "reverse", "popitem", "appendleft"):
+            out.append(n)
+    return out
+
+
+def accumulator_comp(func_node: ast.AST, name: str) -> Optional[ast.expr]:
+    """The comprehension equivalent to an accumulate-loop over local ``name``, or None.
+
+    Recognised life cycles (``x`` has exactly one definition and exactly one in-place change):
+      x = [] ; for t in S: [if c:] x.append(E)             ->  [E for t in S if c]
+      x = {} ; for t in S: [if c:] x[K] = V | x.update({K: V})  ->  {K: V for t in S if c}
+      x = dict(A) | A.copy() | {**A} ; x.update(B)           ->  {**A, **B}
+    Loops may nest; temporaries assigned once inside the loop are substituted into E.  A loop
+    with break / continue / return / else, or a while / try around the change, is not recognised.
+    """
+    defs = local_defs(func_node, name)
+    if len(defs) != 1 or defs[0][1] is None:
+        return None
+    dst, dval = defs[0]
+    sites = _mutation_sites(func_node, name)
+    if len(sites) != 1:
+        return None
+    site = sites[0]
+    kind = _empty_container(dval)
+    # x = dict(A); x.update(B)
+    if kind is None:
+        base = None
+        if isinstance(dval, ast.Call) and call_name(dval) == "dict" and len(dval.args) == 1 and not dval.keywords:
+            base = dval.args[0]
+        elif isinstance(dval, ast.Call) and isinstance(dval.func, ast.Attribute) and dval.func.attr == "copy" and not dval.args:
+            base = dval.func.value
+        elif isinstance(dval, ast.Dict) and len(dval.keys) == 1 and dval.keys[0] is None:
+            base = dval.values[0]
+        if base is not None and isinstance(site, ast.Call) and site.func.attr == "update" and len(site.args) == 1 and not site.keywords:
+            sst = enclosing_stmt(site)
+            if isinstance(sst, ast.Expr) and parent(sst) is parent(dst):
+                return ast.copy_location(ast.Dict(keys=[None, None], values=[clone(base), clone(site.args[0])]), dval)
+        return None
+    # element / key / value
+    elt = key = None
+    if isinstance(site, ast.Call):
+        sst = enclosing_stmt(site)
+        if not isinstance(sst, ast.Expr) or sst.value is not site:
+            return None
+        if kind == "list" and site.func.attr == "append" and len(site.args) == 1:
+            elt = site.args[0]
+        elif kind == "dict" and site.func.attr == "update" and len(site.args) == 1 and isinstance(site.args[0], ast.Dict) and len(site.args[0].keys) == 1 and site.args[0].keys[0] is not None:
+            key, elt = site.args[0].keys[0], site.args[0].values[0]
+        else:
+            return None
+    elif isinstance(site, ast.Assign) and kind == "dict" and len(site.targets) == 1 and isinstance(site.targets[0], ast.Subscript):
+        sst = site
+        key, elt = site.targets[0].slice, site.value
+    else:
+        return None
+    # chain of loops / ifs between the definition's statement list and the site
+    gens: list[ast.comprehension] = []
+    pending_ifs: list[ast.expr] = []
+    child: ast.AST = sst
+    chain = []
+    for anc in ancestors(sst):
+        if anc is func_node or isinstance(anc, (ast.FunctionDef, ast.AsyncFunctionDef, ast.Lambda, ast.ClassDef)):
+            break
+        if parent(dst) is anc and any(child is s_ for fld in ("body", "orelse", "finalbody") for s_ in (getattr(anc, fld, None) or [])) and not isinstance(anc, (ast.For, ast.If)):
+            break
+        chain.append((anc, child))
+        if parent(dst) is anc:
+            # definition and loop live in the same block of this for/if: the container is
+            # re-created there; outer constructs are not part of the accumulation
+            chain.pop()
+            break
+        child = anc
+    loops = [a for a, _ in chain if isinstance(a, (ast.For,))]
+    if not loops:
+        return None
+    for anc, ch in reversed(chain):
+        if isinstance(anc, ast.For):
+            if anc.orelse or any(e is not None for e in loop_exits(anc)):
+                return None
+            gens.append(ast.comprehension(target=clone(anc.target), iter=clone(anc.iter), ifs=[], is_async=0))
+        elif isinstance(anc, ast.If):
+            if not gens:
+                return None
+            if any(ch is s_ for s_ in anc.body):
+                gens[-1].ifs.append(clone(anc.test))
+            else:
+                gens[-1].ifs.append(ast.UnaryOp(op=ast.Not(), operand=clone(anc.test)))
+        else:
+            return None
+    outer = loops[-1]
+    # temporaries of the loop body
+    loop_targets = {n.id for lp in loops for n in ast.walk(lp.target) if isinstance(n, ast.Name)}
+
+    def sub(e: ast.expr) -> ast.expr:
+        return _expand_in(func_node, e, scope=outer, stop=loop_targets | {name})
+
+    if key is not None:
+        new: ast.expr = ast.DictComp(key=sub(key), value=sub(elt), generators=gens)
+    else:
+        new = ast.ListComp(elt=sub(elt), generators=gens)
+    for g in gens:
+        g.ifs = [sub(t) for t in g.ifs]
+    new._acc_loop = outer  # type: ignore[attr-defined]
+    return ast.fix_missing_locations(ast.copy_location(new, outer))
+
+
+def _expand_in(func_node, e: ast.expr, scope: ast.AST, stop: set[str], depth: int = 4) -> ast.expr:
+    """Substitute temporaries that are assigned exactly once, inside ``scope``."""
+
+    class T(ast.NodeTransformer):
+        def visit_Name(self, n: ast.Name):
+            if not isinstance(n.ctx, ast.Load) or n.id in stop or depth <= 0:
+                return n
+            defs = local_defs(func_node, n.id)
+            if len(defs) != 1 or defs[0][1] is None or not contains(scope, defs[0][0]) or n.id in names_in(defs[0][1]):
+                return n
+            if _mutated(func_node, n.id):
+                comp = accumulator_comp(func_node, n.id)
+                if comp is None:
+                    return n
+                return _expand_in(func_node, comp, scope, stop | {n.id}, depth - 1)
+            return _expand_in(func_node, defs[0][1], scope, stop | {n.id}, depth - 1)
+
+        def visit_Lambda(self, n):
+            return n
+
+    return T().visit(clone(e))
+
+
+def fuse_comprehensions(e: ast.expr) -> ast.expr:
+    """[E(t) for t in [G(u) for u in S if c]]  ->  [E(G(u)) for u in S if c]   (bottom-up);
+    dict(zip(K, V))  ->  {k: v for k, v in zip(K, V)}."""
+
+    class F(ast.NodeTransformer):
+        def _fuse(self, n):
+            self.generic_visit(n)
+            changed = True
+            while changed:
+                changed = False
+                for i, g in enumerate(n.generators):
+                    it = g.iter
+                    if isinstance(it, (ast.ListComp, ast.GeneratorExp)) and len(it.generators) == 1 and isinstance(g.target, ast.Name):
+                        var = g.target.id
+                        inner = it.generators[0]
+
+                        class S(ast.NodeTransformer):
+                            def visit_Name(self, m):
+                                if m.id == var and isinstance(m.ctx, ast.Load):
+                                    return clone(it.elt)
+                                return m
+
+                        for fld in ("elt", "key", "value"):
+                            if hasattr(n, fld):
+                                setattr(n, fld, S().visit(getattr(n, fld)))
+                        for g2 in n.generators[i + 1 :]:
+                            g2.iter = S().visit(g2.iter)
+                            g2.ifs = [S().visit(t) for t in g2.ifs]
+                        new_ifs = list(inner.ifs) + [S().visit(t) for t in g.ifs]
+                        n.generators[i] = ast.comprehension(target=inner.target, iter=inner.iter, ifs=new_ifs, is_async=0)
+                        changed = True
+                        break
+            return n
+
+        visit_ListComp = visit_GeneratorExp = visit_SetComp = visit_DictComp = _fuse
+
+        def visit_Call(self, n: ast.Call):
+            self.generic_visit(n)
+            if isinstance(n.func, ast.Name) and n.func.id == "dict" and len(n.args) == 1 and not n.keywords and isinstance(n.args[0], ast.Call) and call_name(n.args[0]) == "zip" and len(n.args[0].args) == 2:
+                z = n.args[0]
+                tgt = ast.Tuple(elts=[ast.Name(id="_k", ctx=ast.Store()), ast.Name(id="_v", ctx=ast.Store())], ctx=ast.Store())
+                new = ast.DictComp(key=ast.Name(id="_k", ctx=ast.Load()), value=ast.Name(id="_v", ctx=ast.Load()), generators=[ast.comprehension(target=tgt, iter=z, ifs=[], is_async=0)])
+                return ast.fix_missing_locations(ast.copy_location(new, n))
+            return n
+
+    return F().visit(clone(e))
 
 
 def expand(f: FuncInfo | ast.AST, expr: ast.expr, depth: int = 6, _seen=None) -> ast.expr:
@@ -212,16 +411,142 @@ def expand(f: FuncInfo | ast.AST, expr: ast.expr, depth: int = 6, _seen=None) ->
             val = defs[0][1]
             if n.id in names_in(val):
                 return n
-            if isinstance(
-                val, (ast.Dict, ast.List, ast.Set, ast.ListComp, ast.DictComp, ast.SetComp)
-            ) and _mutated(node, n.id):
-                return n  # a container that is filled later is not its initial literal
+            if _mutated(node, n.id):
+                # a container that is filled later is not its initial value; an accumulate-loop
+                # is replaced by the equivalent comprehension (uses inside that loop excepted)
+                comp = accumulator_comp(node, n.id)
+                if comp is None:
+                    if isinstance(val, (ast.Dict, ast.List, ast.Set, ast.ListComp, ast.DictComp, ast.SetComp)) or _empty_container(val) or (isinstance(val, ast.Call) and call_name(val) in ("dict", "list")):
+                        return n
+                else:
+                    lp = getattr(comp, "_acc_loop", None)
+                    src = getattr(n, "_src", n)
+                    if lp is not None and any(a is lp for a in ancestors(src)):
+                        return n
+                    return fuse_comprehensions(expand(node, comp, depth - 1, seen | {n.id}))
             return expand(node, val, depth - 1, seen | {n.id})
 
         def visit_Lambda(self, n):
             return n
 
     return Sub().visit(clone(expr))
+
+
+def _target_path(target: ast.expr, name: str) -> Optional[list[int]]:
+    if isinstance(target, ast.Name):
+        return [] if target.id == name else None
+    if isinstance(target, (ast.Tuple, ast.List)):
+        for i, e in enumerate(target.elts):
+            if isinstance(e, ast.Starred):
+                return None
+            p = _target_path(e, name)
+            if p is not None:
+                return [i] + p
+    return None
+
+
+def alpha(f: FuncInfo | ast.AST, expr: ast.expr, depth: int = 6) -> ast.expr:
+    """Rename-invariant form of ``expr``: local single-assignment names are expanded and a name
+    bound (only) as the target of one ``for`` loop or comprehension becomes ``EACH(<iterable>)[i]..``,
+    the i-th component of an element of what is iterated.  Two functions that differ only in the
+    names of locals and loop variables give the same text."""
+    node = f.node if isinstance(f, FuncInfo) else f
+    e = expand(node, expr, depth)
+
+    class A(ast.NodeTransformer):
+        def __init__(self):
+            self.bound: list[set[str]] = []
+
+        def _comp(self, n):
+            names = {x.id for g in n.generators for x in ast.walk(g.target) if isinstance(x, ast.Name)}
+            self.bound.append(names)
+            self.generic_visit(n)
+            self.bound.pop()
+            return n
+
+        visit_ListComp = visit_SetComp = visit_GeneratorExp = visit_DictComp = _comp
+
+        def visit_Lambda(self, n):
+            return n
+
+        def visit_Name(self, n: ast.Name):
+            if not isinstance(n.ctx, ast.Load) or any(n.id in b for b in self.bound):
+                return n
+            defs = [(st, t) for st, t in stores(node, lambda t: isinstance(t, ast.Name) and t.id == n.id)]
+            if len(defs) != 1 or not isinstance(defs[0][0], (ast.For, ast.AsyncFor)):
+                return n
+            lp = defs[0][0]
+            path = _target_path(lp.target, n.id)
+            if path is None or depth <= 0:
+                return n
+            it = alpha(node, lp.iter, depth - 1) if n.id not in names_in(lp.iter) else clone(lp.iter)
+            out: ast.expr = ast.Call(func=ast.Name(id="EACH", ctx=ast.Load()), args=[it], keywords=[])
+            for i in path:
+                out = ast.Subscript(value=out, slice=ast.Constant(value=i), ctx=ast.Load())
+            return ast.fix_missing_locations(ast.copy_location(out, n))
+
+    return A().visit(e)
+
+
+def seq_len(f: FuncInfo | ast.AST, expr: ast.expr, _depth: int = 8) -> Optional[str]:
+    """A token naming the LENGTH of the sequence ``expr`` denotes (two expressions with the same
+    token have the same length whatever the inputs), "inf" for an endless iterator, None = unknown."""
+    node = f.node if isinstance(f, FuncInfo) else f
+    e = alpha(node, expr)
+
+    def L(x: ast.expr, d: int) -> Optional[str]:
+        if d <= 0:
+            return None
+        if isinstance(x, (ast.ListComp, ast.GeneratorExp)) and len(x.generators) == 1 and not x.generators[0].ifs:
+            return L(x.generators[0].iter, d - 1)
+        if isinstance(x, (ast.Tuple, ast.List)) and not any(isinstance(t, ast.Starred) for t in x.elts):
+            return f"#{len(x.elts)}"
+        if isinstance(x, ast.Call):
+            fn = call_name(x)
+            last = fn.split(".")[-1]
+            if last == "count" and fn in ("count", "itertools.count"):
+                return "inf"
+            if fn in ("list", "tuple", "sorted", "reversed", "enumerate", "iter") and x.args:
+                return L(x.args[0], d - 1)
+            if isinstance(x.func, ast.Attribute) and x.func.attr in ("values", "keys", "items") and not x.args:
+                return L(x.func.value, d - 1)
+            if fn == "zip" and x.args and not any(isinstance(a_, ast.Starred) for a_ in x.args):
+                ls = {L(a_, d - 1) for a_ in x.args} - {"inf"}
+                return ls.pop() if len(ls) == 1 and None not in ls else None
+            if fn == "range" and len(x.args) == 1 and isinstance(x.args[0], ast.Call) and call_name(x.args[0]) == "len" and x.args[0].args:
+                return L(x.args[0].args[0], d - 1)
+            return None
+        if isinstance(x, ast.Subscript) and isinstance(x.slice, ast.Constant) and isinstance(x.slice.value, int):
+            # EACH(zip(A, B))[i] is an element of the i-th operand; EACH(enumerate(A))[1] of A
+            base = x.value
+            if isinstance(base, ast.Call) and call_name(base) == "EACH" and base.args:
+                it = base.args[0]
+                if isinstance(it, ast.Call) and call_name(it) == "zip" and x.slice.value < len(it.args):
+                    return E(it.args[x.slice.value], d - 1)
+                if isinstance(it, ast.Call) and call_name(it) == "enumerate" and x.slice.value == 1 and it.args:
+                    return E(it.args[0], d - 1)
+            return None
+        if isinstance(x, ast.Call) and call_name(x) == "EACH" and x.args:
+            return E(x.args[0], d - 1)
+        if isinstance(x, (ast.Name, ast.Attribute)):
+            return "len:" + norm(x)
+        return None
+
+    def E(it: ast.expr, d: int) -> Optional[str]:
+        """Length of ONE ELEMENT of iterable ``it``."""
+        if d <= 0:
+            return None
+        if isinstance(it, ast.Call) and call_name(it) in ("itertools.product", "product") and len(it.args) == 1 and isinstance(it.args[0], ast.Starred) and not it.keywords:
+            return L(it.args[0].value, d - 1)
+        if isinstance(it, ast.Call) and call_name(it) == "zip" and not any(isinstance(a_, ast.Starred) for a_ in it.args):
+            return f"#{len(it.args)}"
+        if isinstance(it, ast.Call) and call_name(it) in ("list", "tuple", "iter") and it.args:
+            return E(it.args[0], d - 1)
+        if isinstance(it, ast.Call) and call_name(it) == "EACH":
+            return None
+        return None
+
+    return L(e, _depth)
 
 
 def _mutated(func_node: ast.AST, name: str) -> bool:
@@ -450,21 +775,55 @@ def stmt_calls(f, resolver, qualnames: set[str]) -> list[ast.Call]:
     return out
 
 
-def flow_closure(f, expr: ast.expr) -> set[str]:
-    """Names the value of ``expr`` may derive from inside function ``f``: transitive closure
-    over *all* local definitions (assignments and augmented assignments) of the names met."""
+_MUTATORS = ("append", "extend", "update", "add", "insert", "setdefault", "appendleft", "__setitem__")
+
+
+def flow_exprs(f, expr: ast.expr) -> tuple[set[str], list[ast.expr]]:
+    """(names, value expressions) the value of ``expr`` may derive from inside ``f``: transitive
+    closure over ALL local definitions of the names met - assignments, augmented assignments,
+    loop / with targets, and container fills (``x.append(v)``, ``x[k] = v``, ``x.update(v)``)."""
     node = f.node if isinstance(f, FuncInfo) else f
     live = set(names_in(expr))
-    body = [s for s in walk_ordered(node) if isinstance(s, (ast.Assign, ast.AugAssign, ast.AnnAssign))]
+    exprs: list[ast.expr] = [expr]
+    edges: list[tuple[set[str], ast.expr]] = []
+    for s_ in walk_ordered(node):
+        if isinstance(s_, (ast.Assign, ast.AugAssign, ast.AnnAssign)) and getattr(s_, "value", None) is not None:
+            tg = s_.targets if isinstance(s_, ast.Assign) else [s_.target]
+            tn = set()
+            for t in tg:
+                base = t
+                while isinstance(base, (ast.Subscript, ast.Attribute, ast.Starred)):
+                    base = base.value
+                if isinstance(base, ast.Name):
+                    tn.add(base.id)
+                elif isinstance(base, (ast.Tuple, ast.List)):
+                    tn |= {x.id for x in ast.walk(base) if isinstance(x, ast.Name) and isinstance(x.ctx, ast.Store)}
+            edges.append((tn, s_.value))
+        elif isinstance(s_, (ast.For, ast.AsyncFor, ast.comprehension)):
+            edges.append(({x.id for x in ast.walk(s_.target) if isinstance(x, ast.Name)}, s_.iter))
+        elif isinstance(s_, ast.withitem) and s_.optional_vars is not None:
+            edges.append(({x.id for x in ast.walk(s_.optional_vars) if isinstance(x, ast.Name)}, s_.context_expr))
+        elif isinstance(s_, ast.NamedExpr):
+            edges.append(({s_.target.id}, s_.value))
+        elif isinstance(s_, ast.Call) and isinstance(s_.func, ast.Attribute) and s_.func.attr in _MUTATORS and isinstance(s_.func.value, ast.Name):
+            for a in list(s_.args) + [k.value for k in s_.keywords]:
+                edges.append(({s_.func.value.id}, a))
     changed = True
+    used = set()
     while changed:
         changed = False
-        for s_ in body:
-            tg = s_.targets if isinstance(s_, ast.Assign) else [s_.target]
-            tn = {x.id for t in tg for x in ast.walk(t) if isinstance(x, ast.Name)}
-            if tn & live and getattr(s_, "value", None) is not None:
-                add = names_in(s_.value) - live
-                if add:
-                    live |= add
-                    changed = True
-    return live
+        for i, (tn, val) in enumerate(edges):
+            if i in used or not (tn & live):
+                continue
+            used.add(i)
+            exprs.append(val)
+            add = names_in(val) - live
+            if add:
+                live |= add
+            changed = True
+    return live, exprs
+
+
+def flow_closure(f, expr: ast.expr) -> set[str]:
+    """Names the value of ``expr`` may derive from inside function ``f`` (see flow_exprs)."""
+    return flow_exprs(f, expr)[0]
